@@ -622,7 +622,7 @@ func init() {
 // accepted from then on; the accepted pipe reports it; a message over the
 // limit is not delivered, one within it is.
 func c19Real(w *W) {
-	tran := w.simFallback([]string{"tcp", "ipc", "tls+tcp", "ws"}[w.Choose(simrt.SShape, 4)])
+	tran := w.simFallback([]string{"tcp", "ipc", "tls+tcp", "ws", "wss"}[w.Choose(simrt.SShape, 5)])
 	via := []string{"listener", "socket"}[w.Choose(simrt.SShape, 2)]
 	when := []string{"before-listen", "after-listen"}[w.Choose(simrt.SShape, 2)]
 	limit := []int{100, 1000}[w.Choose(simrt.SShape, 2)]
@@ -645,9 +645,19 @@ func c19Real(w *W) {
 		url = "ipc://" + p
 	case "ws":
 		url += "/sp"
+	case "wss":
+		url += "/sp"
+		lopts = map[string]interface{}{mangos.OptionTLSConfig: srv}
+		dopts = map[string]interface{}{mangos.OptionTLSConfig: cli}
 	case "tls+tcp":
 		lopts = map[string]interface{}{mangos.OptionTLSConfig: srv}
 		dopts = map[string]interface{}{mangos.OptionTLSConfig: cli}
+	}
+	if !w.Real {
+		// engine B: the same listeners inside the simulation
+		w.UseNet(NetCfg{Segment: w.Choose(simrt.SShape, 2) == 0})
+		url = w.Addr(tran)
+		lopts, dopts = w.EpOpts(url, true, nil), w.EpOpts(url, false, nil)
 	}
 	var pipes []mangos.Pipe
 	got := make(chan mangos.Pipe, 4)
@@ -680,7 +690,7 @@ func c19Real(w *W) {
 	// ipc: the permissions the socket file is to get (every accepted value,
 	// zero included, is what the file has after Listen)
 	wantMode, chmod := os.FileMode(0), false
-	if tran == "ipc" && w.Choose(simrt.SShape, 3) != 0 {
+	if tran == "ipc" && w.Real && w.Choose(simrt.SShape, 3) != 0 {
 		chmod = true
 		wantMode = []os.FileMode{0, 0600, 0660, 0777, 0400}[w.Choose(simrt.SShape, 5)]
 		var v interface{} = uint32(wantMode)
@@ -726,10 +736,15 @@ func c19Real(w *W) {
 		w.Failf("HARNESS/dial", "%v", err)
 		return
 	}
-	select {
-	case p := <-got:
-		pipes = append(pipes, p)
-	case <-time.After(30 * time.Second):
+	for i := 0; i < 3000 && len(pipes) == 0; i++ {
+		select {
+		case p := <-got:
+			pipes = append(pipes, p)
+		default:
+			w.Sleep(10 * time.Millisecond)
+		}
+	}
+	if len(pipes) == 0 {
 		w.Failf("HARNESS/attach", "no pipe attached")
 		return
 	}
@@ -760,6 +775,7 @@ func c19Real(w *W) {
 
 func init() {
 	register(&Scenario{Name: "option-effects-real-transports", Prop: "C19", Engine: "R", Weight: 3, Run: c19Real})
+	register(&Scenario{Name: "option-effects-real-listeners-sim", Prop: "C19", Horizon: time.Hour, Weight: 3, Run: c19Real})
 }
 
 // c19WSOrigin: the WebSocket listener's origin check follows the option
